@@ -265,6 +265,20 @@ def run_model(ctx, histories: List[List[dict]], world: Optional[dict] = None, sh
                 idx.append(i)
         exprs.append(fn + ' [' + '; '.join(terms) + ']')
         metas.append((idx, it))
+    # the two serial readings of a race between a request and its verbatim retry are the same op list: evaluate it once
+    all_exprs = exprs
+    exprs = list(dict.fromkeys(all_exprs))
+    if len(exprs) < len(all_exprs):
+        pos = {e: i for i, e in enumerate(exprs)}
+        uvals = _eval_sharded(ctx, exprs, shard, fn)
+        return [(uvals[pos[e]], idx, it) for e, (idx, it) in zip(all_exprs, metas)]
+    vals = _eval_sharded(ctx, exprs, shard, fn)
+    return [(v, idx, it) for v, (idx, it) in zip(vals, metas)]
+
+
+def _eval_sharded(ctx, exprs: List[str], shard: int, fn: str):
+    if not exprs:
+        return []
     shard = max(2, min(shard, -(-len(exprs) // 14)))     # one shard per core: a history costs about a second of vm_compute
     # balance the shards: deal the histories, longest first, round-robin over the K shards
     K = -(-len(exprs) // shard)
@@ -280,7 +294,7 @@ def run_model(ctx, histories: List[List[dict]], world: Optional[dict] = None, sh
     for i, v in zip(perm, pvals):
         if i is not None:
             vals[i] = v
-    return [(v, idx, it) for v, (idx, it) in zip(vals, metas)]
+    return vals
 
 
 FILTER_HEADER = ('From HailV Require Import Common.Prelude BatchDB.Model BatchDB.LegalFilter.\nOpen Scope Z_scope.\n')
@@ -331,57 +345,154 @@ def fingerprint(canon: Dict[str, List[Tuple[int, ...]]]) -> int:
     return total
 
 
+# ------------------------------------------------------------------------------------------------ overlapping requests (op "race")
+
+def is_race(op) -> bool:
+    return isinstance(op, dict) and op.get('op') == 'race'
+
+
+def race_info(ent) -> Optional[dict]:
+    """The runner's report of an executed race op ({'first': answer, 'second': answer, 'order': completion order, ...}); None when
+    the op was refused as malformed (BadRequest, nothing changed: no model counterpart, like every unknown op)."""
+    r = ent.get('result') if isinstance(ent, dict) else None
+    if isinstance(r, dict) and isinstance(r.get('ok'), dict) and isinstance(r['ok'].get('race'), dict):
+        return r['ok']['race']
+    return None
+
+
+def race_readings(h: List[dict], ents: List[dict], limit: int = 8):
+    """A race op has no single model transition.  The tie demands SERIALISABILITY: the implementation's two answers and the
+    observable state after the race must be those of the model run with `first; second` or with `second; first`.
+    Returns the plain readings of the history -- every executed race replaced by its two requests in one of the two serial
+    orders, each request carrying the answer the implementation gave to THAT request -- as (ops, entries, origin indices,
+    orders).  The state between the two requests is compared only in the reading whose order is the order in which the two
+    requests actually finished (only there the implementation has such a state: `obs_mid`).  The history corresponds iff
+    one reading corresponds op by op to the end of the history."""
+    readings = [([], [], [], [])]
+    for i, (op, ent) in enumerate(zip(h, ents)):
+        info = race_info(ent) if is_race(op) else None
+        if info is None:
+            for ops2, ents2, orig, orders in readings:
+                ops2.append(op)
+                ents2.append(ent)
+                orig.append(i)
+            continue
+        new = []
+        for ops2, ents2, orig, orders in readings:
+            for x, y in (('first', 'second'), ('second', 'first')):
+                mid = ent.get('obs_mid') if [x, y] == list(info.get('order') or []) else None
+                new.append((ops2 + [op[x], op[y]],
+                            ents2 + [{'result': info[x], 'obs': mid}, {'result': info[y], 'obs': ent.get('obs')}],
+                            orig + [i, i], orders + [f'{x};{y}']))
+        readings = new[:limit]
+    return readings
+
+
 def compare(ctx, histories: List[List[dict]], world: Optional[dict] = None, name: str = 'BatchDB.Model.step~real SQL+handlers on minisql', impl=None):
-    """Full correspondence on the given histories. Returns (Corr, impl_results)."""
+    """Full correspondence on the given histories (race ops: see race_readings). Returns (Corr, impl_results)."""
     if impl is None:
         impl = run_impl(ctx, histories, 'all', world)
+    plain_h, plain_e, owner, meta = [], [], [], []
+    for hi, (h, ents) in enumerate(zip(histories, impl['results'])):
+        if any(is_race(op) for op in h):
+            for ops2, ents2, orig, orders in race_readings(h, ents):
+                plain_h.append(ops2)
+                plain_e.append(ents2)
+                owner.append(hi)
+                meta.append((orig, orders))
+        else:
+            plain_h.append(h)
+            plain_e.append(ents)
+            owner.append(hi)
+            meta.append(None)
+    by_plain, n_ops = _compare_plain(ctx, plain_h, plain_e, world, name)
+    dis: List[Disagreement] = []
+    n_races = n_both = 0
+    groups: Dict[int, List[int]] = {}
+    for pi, hi in enumerate(owner):
+        groups.setdefault(hi, []).append(pi)
+    for hi, pis in groups.items():
+        if meta[pis[0]] is None:
+            dis += by_plain.get(pis[0], [])
+            continue
+        n_races += 1
+        good = [pi for pi in pis if not by_plain.get(pi)]
+        if good:
+            n_both += len(good) > 1
+            continue
+        # no serial reading corresponds: report the reading that corresponds longest, on the ORIGINAL history (with the race op)
+        def depth(pi):
+            d = by_plain[pi][0]
+            return (d.impl or {}).get('op_index', -1) if isinstance(d.impl, dict) else -1
+        best = max(pis, key=depth)
+        d = by_plain[best][0]
+        orig, orders = meta[best]
+        k = depth(best)
+        oi = orig[k] if 0 <= k < len(orig) else len(histories[hi]) - 1
+        detail = dict(d.impl) if isinstance(d.impl, dict) else {'note': d.impl}
+        detail['race'] = {'no_serial_order_corresponds': True, 'orders_of_best_reading': orders,
+                          'first_disagreement_of_each_reading': {'/'.join(meta[pi][1]): depth(pi) for pi in pis},
+                          'runner_report': [race_info(e) for op, e in zip(histories[hi], impl['results'][hi]) if is_race(op)][:3]}
+        detail['op_index'] = oi
+        dis.append(Disagreement(name, {'history': histories[hi][:oi + 1]}, d.model, detail))
+    corr = Corr(evaluations=len(histories), distinct_nontrivial=len({json.dumps(h, sort_keys=True) for h in histories if len(h) >= 5}),
+                rule='histories of batch-service ops (INTERFACE.md); non-trivial = at least 5 ops; after every op the result class and the '
+                     'whole observable projection (15 tables) of model and implementation are compared; an op "race" (two overlapping '
+                     'requests) must agree with the model run in one of the two serial orders (answers per request, state after the race, and '
+                     'the state in between for the order in which the requests finished)',
+                samples=[], disagreements=dis,
+                histograms={'ops_compared': n_ops, 'histories_with_races': n_races, 'race_histories_matching_both_orders': n_both,
+                            'impl_op_histogram': impl.get('stats', {}).get('histogram', impl.get('stats', {}))},
+                names=[name])
+    return corr, impl
+
+
+def _compare_plain(ctx, histories: List[List[dict]], results: List[List[dict]], world, name):
+    """Model vs implementation on histories without race ops; an entry whose 'obs' is None is compared by its answer only.
+    Returns ({history index: [Disagreement]}, number of ops compared)."""
     # pass 1: result class + fingerprint of the whole projection after every op; pass 2 (only for histories whose
     # fingerprints or results differ): the full 15 tables, for the diagnostic
     model_h = run_model(ctx, histories, world, shard=60, fn='hash_trace')
-    dis: List[Disagreement] = []
+    out: Dict[int, List[Disagreement]] = {}
     n_ops = 0
     suspects = []
-    for hi, (h, ires, (mres, idx, it)) in enumerate(zip(histories, impl['results'], model_h)):
+    for hi, (h, ires, (mres, idx, it)) in enumerate(zip(histories, results, model_h)):
         # ops without a model counterpart because of an invalid resource request: rejected, nothing changed
         for i, op in enumerate(h):
             if isinstance(op, dict) and resource_invalid(op, world or DEFAULT_WORLD):
                 before = ires[i - 1]['obs'] if i > 0 else None
-                if 'err' not in ires[i]['result'] or (before is not None and ires[i]['obs'] != before):
-                    dis.append(Disagreement(name, {'history': h[:i + 1]}, 'a job bunch with an invalid resource request must be rejected without any change',
-                                            {'op_index': i, 'op': op, 'result_impl': ires[i]['result']}))
+                if 'err' not in ires[i]['result'] or (before is not None and ires[i]['obs'] is not None and ires[i]['obs'] != before):
+                    out.setdefault(hi, []).append(Disagreement(
+                        name, {'history': h[:i + 1]}, 'a job bunch with an invalid resource request must be rejected without any change',
+                        {'op_index': i, 'op': op, 'result_impl': ires[i]['result']}))
         for mi, i in enumerate(idx):
             op = h[i]
             n_ops += 1
             r_i = canon_impl_result(op, ires[i]['result'])
             r_m = canon_model_result(op, (mres[mi][0], mres[mi][1]))
-            if r_i != r_m or fingerprint(canon_impl_obs(ires[i]['obs'], it)) != int(mres[mi][2]):
+            if r_i != r_m or (ires[i]['obs'] is not None and fingerprint(canon_impl_obs(ires[i]['obs'], it)) != int(mres[mi][2])):
                 suspects.append(hi)
                 break
     model = run_model(ctx, [histories[hi] for hi in suspects], world) if suspects else []
     for hi, (mres, idx, it) in zip(suspects, model):
-        h, ires = histories[hi], impl['results'][hi]
+        h, ires = histories[hi], results[hi]
         found = False
         for mi, i in enumerate(idx):
             op = h[i]
             r_i = canon_impl_result(op, ires[i]['result'])
             # Coq prints ((cls, payload), obs) as a flat triple
             r_m = canon_model_result(op, (mres[mi][0], mres[mi][1]))
-            o_i = canon_impl_obs(ires[i]['obs'], it)
             o_m = canon_model_obs(mres[mi][2])
+            o_i = canon_impl_obs(ires[i]['obs'], it) if ires[i]['obs'] is not None else o_m
             if r_i != r_m or o_i != o_m:
                 diff = {'op_index': i, 'op': op, 'result_impl': r_i, 'result_model': r_m,
                         'tables': {t: {'impl_only': [list(r) for r in o_i[t] if r not in o_m[t]][:8],
                                        'model_only': [list(r) for r in o_m[t] if r not in o_i[t]][:8]}
                                    for t in TABLES if o_i[t] != o_m[t]}}
-                dis.append(Disagreement(name, {'history': h[:i + 1]}, diff.get('tables'), diff))
+                out.setdefault(hi, []).append(Disagreement(name, {'history': h[:i + 1]}, diff.get('tables'), diff))
                 found = True
                 break
         if not found:   # fingerprints differ but tables agree: the two fingerprint implementations have diverged
-            dis.append(Disagreement(name, {'history': h}, None, {'note': 'fingerprint mismatch without table mismatch (Obs.hobs vs corr.fingerprint)'}))
-        # read-only ops must not change the implementation's database either
-    corr = Corr(evaluations=len(histories), distinct_nontrivial=len({json.dumps(h, sort_keys=True) for h in histories if len(h) >= 5}),
-                rule='histories of batch-service ops (INTERFACE.md); non-trivial = at least 5 ops; after every op the result class and the '
-                     'whole observable projection (15 tables) of model and implementation are compared',
-                samples=[], disagreements=dis, histograms={'ops_compared': n_ops, 'impl_op_histogram': impl.get('stats', {}).get('histogram', impl.get('stats', {}))},
-                names=[name])
-    return corr, impl
+            out.setdefault(hi, []).append(Disagreement(name, {'history': h}, None,
+                                                       {'note': 'fingerprint mismatch without table mismatch (Obs.hobs vs corr.fingerprint)'}))
+    return out, n_ops
